@@ -44,8 +44,8 @@ def arg_parser_init():
     parser.add_argument("-i", "--infile", help="path of input file",
                         default="tlexport/pcaps_und_keylogs/quic_pcaps/all_ciphersuites.pcapng")
     parser.add_argument("-o", "--outfile", help="path of output file", default="out.pcapng")
-    parser.add_argument("-s", "--sslkeylog", help="path to sslkeylogfile",
-                        default="tlexport/pcaps_und_keylogs/quic_pcaps/all_ciphersuites.log")
+    parser.add_argument("-s", "--sslkeylog", help="path to sslkeylogfile (without it only the decryption secret blocks of the capture are used)",
+                        default=None)
     # default False due to checksum offloading producing wrong checksums in Packet Capture
     parser.add_argument("-c", "--checksumTest", help="enable for checking tcp Checksums",
                         action=argparse.BooleanOptionalAction, default=False)
